@@ -8,11 +8,12 @@ import numpy as np
 import bct
 from bctmc import smallscope as ss
 from bctmc import oracles as orc
+from bctmc import named
 from bctmc.runner import guarded
 from bctmc.tally import Tally
 
 PROPERTY = 'C08'
-RULE = ('all binary digraphs n<=4 and graphs n<=5; lengths {1,2} on 4-node graphs and 3-node digraphs, {1,2,3} and the near-tie alphabet {1,2,2+2^-20} on 3-node '
+RULE = ('the structured 7-10 node family of bctmc/named.py (binary, lengths {1,2},{1,2,3}, near-tie) and all binary digraphs n<=4 and graphs n<=5; lengths {1,2} on 4-node graphs and 3-node digraphs, {1,2,3} and the near-tie alphabet {1,2,2+2^-20} on 3-node '
         'digraphs (thorough: lengths {1,2} on all 4-node digraphs and 5-node graphs, binary graphs n=6); non-trivial = '
         'graph with a source-target pair joined by >= 2 distinct shortest paths, or with an unreachable ordered pair while '
         'some pair is >= 2 hops apart')
@@ -31,8 +32,15 @@ FAMILIES = {
 }
 
 
+NAMED = ('named:bin_und', 'named:bin_dir', 'named:len_und', 'named:len_dir', 'named:neartie_und')
+
+
 def plan(ctx):
     units = []
+    for nm in NAMED:
+        tot = len(named.family(nm.split(':')[1]))
+        for (a, b) in ss.ranges(tot, 16):
+            units.append((nm, a, b))
     for name, (directed, n, alpha, tier) in FAMILIES.items():
         if tier == 't' and not ctx.thorough:
             continue
@@ -91,8 +99,16 @@ def check_case(t, X, case, binary):
 
 def work(unit):
     name, a, b = unit
-    directed, n, alpha, _ = FAMILIES[name]
     t = Tally(PROPERTY)
+    if name in NAMED:
+        fam = named.family(name.split(':')[1])
+        for idx in range(a, b):
+            label, X = fam[idx]
+            case = {'family': name, 'index': idx, 'graph': label, 'X': X}
+            if check_case(t, X, case, 'bin' in name):
+                t.c['nontrivial'] += 1
+        return t
+    directed, n, alpha, _ = FAMILIES[name]
     for idx in range(a, b):
         X = ss.dir_graph(n, alpha, idx) if directed else ss.und_graph(n, alpha, idx)
         case = {'family': name, 'index': idx, 'X': X}
@@ -106,5 +122,5 @@ def work(unit):
 def replay(rec):
     t = Tally(PROPERTY)
     c = rec['case']
-    check_case(t, np.array(c['X'], dtype=float), c, FAMILIES[c['family']][2] == BIN)
+    check_case(t, np.array(c['X'], dtype=float), c, ('bin' in c['family']) if c['family'].startswith('named') else FAMILIES[c['family']][2] == BIN)
     return t
